@@ -383,3 +383,63 @@ Example C19_example_main_case_shape :
            [(0, 0); (0, 1); (0, 2); (0, 3); (1, 0); (1, 1); (1, 2)], [(1, 3); (1, 4)], None, None,
            (v12, v13, 0, false)) = true.
 Proof. vm_compute. reflexivity. Qed.
+
+(* ConnectionState() more than once on one connection (round f).  [export] is a function of the
+   CURRENT connection state: after any history of sends and earlier ConnectionState() calls (looks)
+   the exported State is generateState of the state as it is now, and its sequence number is the
+   connection's next one at the moment of the call - the counters the sends of the history left,
+   whatever the earlier calls returned. *)
+Theorem C19_export_reflects_current_counters :
+  forall (c : conn) (evs : list ev),
+  let c' := conn_run false c evs in
+  snd (export c') = gen_state (c_state c') /\
+  i_local_seq (c_state c') = counters_after (i_local_seq (c_state c)) (sends_of evs) /\
+  i_local_epoch (c_state c') = i_local_epoch (c_state c) /\
+  forall p, snd (export c') = Ok p ->
+    p_seq p = get (i_local_seq (c_state c')) (i_local_epoch (c_state c')) /\
+    p_seq p = get (counters_after (i_local_seq (c_state c)) (sends_of evs)) (i_local_epoch (c_state c)).
+Proof. exact export_reflects_current_counters. Qed.
+Print Assumptions C19_export_reflects_current_counters.
+
+(* looks are invisible: the export at the end of a history equals the export at the end of the
+   same history with every look removed *)
+Theorem C19_looks_do_not_change_the_export :
+  forall (s : istate) (evs : list ev),
+  snd (export (conn_run false (conn_fresh s) evs)) =
+  snd (export (conn_run false (conn_fresh s) (map EvSend (sends_of evs)))).
+Proof. exact looks_do_not_change_the_export. Qed.
+Print Assumptions C19_looks_do_not_change_the_export.
+
+(* so the sequence statement of C19 holds for every history with looks in it: sends and looks in
+   any order since the start of the connection, the State of the last call serialised and resumed,
+   [post] more records: the resumed sender starts at the connection's next number and no
+   (epoch, sequence number) is used twice *)
+Theorem C19_looks_then_export_continues :
+  forall (evs : list ev) (e : N) (post : nat) (s0 s' : istate),
+  i_local_seq s0 = [] -> i_local_epoch s0 = e ->
+  let c' := conn_run false (conn_fresh s0) evs in
+  import_export (c_state c') = Some s' ->
+  N.of_nat (length (sends_of evs) + post) < two64 ->
+  get (i_local_seq s') e = get (counters_after [] (sends_of evs)) e /\
+  (forall x, In x (emitted [] (sends_of evs)) -> ~ In x (emitted (i_local_seq s') (repeat e post))) /\
+  NoDup (emitted [] (sends_of evs) ++ emitted (i_local_seq s') (repeat e post)).
+Proof. exact looks_then_export_continues. Qed.
+Print Assumptions C19_looks_then_export_continues.
+
+(* a ConnectionState() that memoises its first snapshot ([export_gen true]) is refuted: look, two
+   records, export - the State carries sequence number 1 while the connection's next number is 3,
+   and the connection resumed from it sends (epoch 1, sequence number 1) a second time *)
+Theorem C19_export_memoised_refuted : exists s evs p s',
+  i_local_seq s = counters_after [] [0; 0; 1] /\
+  let c' := conn_run true (conn_fresh s) evs in
+  snd (export_gen true c') = Ok p /\
+  p_seq p = 1 /\ get (i_local_seq (c_state c')) (i_local_epoch (c_state c')) = 3 /\
+  snd (export c') <> Ok p /\
+  match serialize p with Some z => match unmarshal z with Some p' => gen_internal p' | None => None end | None => None end = Some s' /\
+  In (1, 1) (emitted [] ([0; 0; 1] ++ sends_of evs)) /\ In (1, 1) (emitted (i_local_seq s') [1]).
+Proof. exact export_memoised_refuted. Qed.
+Print Assumptions C19_export_memoised_refuted.
+
+Example C19_example_looks_case_shape :
+  looks_ok (C19_example_state, [3; 2; 0; 2; 0], [3; 4; 5]) = true.
+Proof. vm_compute. reflexivity. Qed.
